@@ -55,6 +55,7 @@ def _event(tok):
     if k == "RT": return "Ev (Ret %s)" % _b(p[1] == "1")
     if k == "XX": return "ExX %s" % p[1]
     if k == "SX": return "SFX %s" % p[1]
+    if k == "SR": return "SRX %s" % p[1]
     if k == "PX": return "PuX %s %s %s" % (p[1], _b(p[2] == "1"), _b(p[3] == "1"))
     if k == "TX": return "TagX %s %s" % (p[1], _b(p[2] == "1"))
     if k == "MX": return "MtX %s %s" % (p[1], _b(p[2] == "1"))
